@@ -363,6 +363,9 @@ func Sym_Row_Scan(row *sql.Row, dest ...interface{}) error {
 
 var _ = io.EOF
 
+// the summaries of *sql.DB/*sql.Stmt stand for database/sql's whole retry loop
+const sqlBadConnRetries = 0
+
 func lockStore()   {}
 func unlockStore() {}
 
